@@ -48,6 +48,9 @@ def axis_params(rng, d, sel=True, mig=True):
     gamma = float(rng.uniform(-40, 40)) if sel and rng.random() < 0.8 else 0.0
     h = float(rng.uniform(0, 1)) if rng.random() < 0.8 else 0.5
     ms = [float(rng.uniform(0, 20)) if (mig and rng.random() < 0.85) else 0.0 for _ in range(d - 1)]
+    # a population that receives no migrants at all is the commonest special value (isolation models): one case in four
+    if d > 2 and rng.random() < 0.25:
+        ms = [0.0] * (d - 1)
     return nu, gamma, h, ms
 
 def round_sig(x, bits=20):
